@@ -34,7 +34,7 @@ def rand_library(r):
     for _ in range(r.choice([0, 1, 1, 2, 2, 3, 4, 6])):
         k = r.random()
         if k < .5:
-            nf = r.choice([0, 1, 2, 2, 3, 5])
+            nf = r.choice([0, 1, 2, 2, 3, 4, 5, 6, 7])
             ks = r.sample(KEYS, nf)
             specs.append(["entry", r.choice(["article", "book", "x"]), "k%d_%d" % (len(specs), r.randint(0, 99)), [[x, r.choice(VALUES)] for x in ks]])
         elif k < .6:
